@@ -15,7 +15,7 @@ PROP = "C05"
 LEVEL = "exploration"
 SHARDS = {"quick": 16, "thorough": 16}
 THOROUGH_DEPTH = 4      # thorough tier = this many times the base thorough budget (VERIF_DEPTH overrides)
-TIME_CAP = {"quick": 200, "thorough": 2400}
+TIME_CAP = {"quick": 900, "thorough": 2400}
 DEG = np.pi / 180.0
 
 # name -> list of (label, constructor kwargs, N, tol_rad, tiers)
